@@ -50,6 +50,10 @@ func checkAuthBits(c *km.Ctx, s *km.Sem, checkAuth *ssa.Function, rule string) {
 				fam[f] = true
 			}
 		}
+		// a stage cut out of checkAuth into a function new to the tree (working on a request-scoped record)
+		if !c.P.IsRecorded(f) && f.Parent() == nil {
+			fam[f] = true
+		}
 	}
 	roots := map[*ssa.Function]bool{checkAuth: true}
 	// "the IP-certificate verifier accepted": every error it reports is nil - its error results, or, when it hands
@@ -93,6 +97,30 @@ func checkAuthBits(c *km.Ctx, s *km.Sem, checkAuth *ssa.Function, rule string) {
 		v = km.Unwrap(v)
 		if v == ssa.Value(reqParam) {
 			return true
+		}
+		// a field of a request-scoped record new to the tree: every store into that field is the mask
+		if base, fld, isF := km.FieldOfLoad(v); isF && depth <= 3 {
+			if tn := km.NamedTypeOf(base.Type()); tn != "" && km.IsNewNamedType(tn) {
+				n := 0
+				okAll := true
+				for f := range fam {
+					km.Instrs(f, func(in ssa.Instruction) {
+						st, isSt := in.(*ssa.Store)
+						if !isSt {
+							return
+						}
+						fa, isFA := st.Addr.(*ssa.FieldAddr)
+						if !isFA || km.NamedTypeOf(fa.X.Type()) != tn || fieldNameOf(fa) != fld {
+							return
+						}
+						n++
+						if !isReq(st.Val, depth+1) {
+							okAll = false
+						}
+					})
+				}
+				return n > 0 && okAll
+			}
 		}
 		p, ok := v.(*ssa.Parameter)
 		if !ok || depth > 3 || !fam[p.Parent()] || p.Parent() == checkAuth {
@@ -472,7 +500,7 @@ func orConstBits(v ssa.Value, fa *ssa.FieldAddr) (int64, bool) {
 		return l | r, okl && okr
 	}
 	if u, ok := v.(*ssa.UnOp); ok && u.Op == token.MUL {
-		if f2, ok := u.X.(*ssa.FieldAddr); ok && f2.X == fa.X && f2.Field == fa.Field {
+		if f2, ok := u.X.(*ssa.FieldAddr); ok && f2.Field == fa.Field && (f2.X == fa.X || sameFieldAddrBase(f2.X, fa.X, 0)) {
 			return 0, true
 		}
 	}
@@ -714,4 +742,26 @@ func fieldCarriesUserName(call *ssa.Call, v ssa.Value) bool {
 		return false
 	}
 	return n > 0
+}
+
+// sameFieldAddrBase: two address computations denote the same nested field of the same root (&p.a.b computed twice).
+func sameFieldAddrBase(a, b ssa.Value, depth int) bool {
+	if a == b {
+		return true
+	}
+	if depth > 4 {
+		return false
+	}
+	fa, ok1 := a.(*ssa.FieldAddr)
+	fb, ok2 := b.(*ssa.FieldAddr)
+	if ok1 && ok2 {
+		return fa.Field == fb.Field && sameFieldAddrBase(fa.X, fb.X, depth+1)
+	}
+	// a pointer field loaded twice from the same place
+	ua, ok1 := a.(*ssa.UnOp)
+	ub, ok2 := b.(*ssa.UnOp)
+	if ok1 && ok2 && ua.Op == token.MUL && ub.Op == token.MUL {
+		return sameFieldAddrBase(ua.X, ub.X, depth+1)
+	}
+	return false
 }
